@@ -61,22 +61,27 @@ Section BatchGet.
 Variable lang_match : str -> item -> item -> fmap str -> outcome bool.
 
 (* the items GetItem returns for a list of keys of one table (keys without a stored item contribute nothing) *)
-Definition gets (c : client) (tn : str) (keys : list item) : list item :=
-  flat_map (fun k => match snd (get_item_op V2 c tn k) with
+Definition gets (c : client) (tn : str) (names : fmap str) (proj : str) (keys : list item) : list item :=
+  flat_map (fun k => match snd (get_item_op V2 c tn k names proj) with
                      | {| o_res := ROk; o_pay := PItem ((_ :: _) as i) |} => [i]
                      | _ => [] end) keys.
 
 (* with no emulated failure BatchGetItem (SDK v2) answers, per table and in request order, exactly with the items the
    individual GetItem calls return, and does not change the client *)
-Theorem batch_get_is_gets c reqs :
+Definition opts_of (opts : fmap (fmap str * str)) (tn : str) : fmap str * str :=
+  match lookup tn opts with Some o => o | None => ([], []) end.
+
+Theorem batch_get_is_gets c reqs opts :
   c_failure c = None ->
   exists unprocessed,
-    batch_get V2 c reqs = (c, ok_obs (PBatchGet (map (fun tk => (fst tk, gets c (fst tk) (snd tk))) reqs) unprocessed) []).
+    batch_get V2 c reqs opts =
+    (c, ok_obs (PBatchGet (map (fun tk => (fst tk, gets c (fst tk) (fst (opts_of opts (fst tk))) (snd (opts_of opts (fst tk))) (snd tk))) reqs) unprocessed) []).
 Proof.
   intros Hf. unfold batch_get. rewrite Hf. eexists. f_equal. f_equal. f_equal.
-  rewrite map_map. apply map_ext. intros [tn keys]. cbn [fst snd]. f_equal.
+  rewrite map_map. apply map_ext. intros [tn keys]. cbn [fst snd]. unfold opts_of.
+  destruct (match lookup tn opts with Some o => o | None => ([], []) end) as [names proj]. cbn [fst snd]. f_equal.
   unfold gets. rewrite flat_map_concat_map, flat_map_concat_map, map_map. f_equal. apply map_ext. intros k. cbn [fst snd].
-  destruct (snd (get_item_op V2 c tn k)) as [r p f]. cbn. destruct r; auto; destruct p; auto.
+  destruct (snd (get_item_op V2 c tn k names proj)) as [r p f]. cbn. destruct r; auto; destruct p; auto.
 Qed.
 
 End BatchGet.
